@@ -460,9 +460,10 @@ def gen_aes_aead(mode, r, scale, big):
                     if r.random() < 0.1:
                         c.update(maclen=16, maclen_api=False)
                     cases.append(c)
-        if mode == "ccm" and big:
-            # the two sides of the boundary between the 2-byte and the 6-byte associated-data length header (SP 800-38C A.2.2)
-            for al, decl in ((65279, True), (65280, False)):
+        if mode == "ccm":
+            # the two sides of the boundary between the 2-byte and the 6-byte associated-data length header (SP 800-38C A.2.2: the 2-byte form
+            # ends at 2^16 - 2^8 - 1); quick tier: the first length that needs the long form (about 4 100 AES blocks for the judge)
+            for al, decl in (((65279, True), (65280, False), (65535, True), (65536, False)) if big else ((65280, r.random() < 0.5),)):
                 c = base()
                 c.update(msg=rb(r, 33), iv=rb(r, r.choice([7, 12, 13])), maclen=r.choice(tls), maclen_api=True, aads=[rb(r, al)], declare=decl)
                 cases.append(c)
